@@ -12,6 +12,11 @@ R3  thread-safe conn(): the connection is created in the call (nothing cached
     journal_mode pragma is not OFF / MEMORY (a rollback journal exists).
 R4  _create_structure commits after the DDL and after the problem rows; the
     constructor calls it before returning in the creating modes.
+R5  The row written is the serialisation of the individual at the moment of
+    the call, and the serialisation takes 'vector' from the individual's
+    vector and 'costs' from its costs (the field table of C10 R1, re-derived
+    here for the two fields the property names): costs stored under another
+    attribute's value do not match the stored vector.
 """
 import ast
 import re
@@ -351,7 +356,8 @@ def r4_structure(ctx, repo, cls):
 
 def run(ctx):
     for rid, doc in (("R1", "store call after the final writes, nothing persistent written after it"), ("R2", "single upsert then commit on the same connection; errors not swallowed"),
-                     ("R3", "thread-safe connection: fresh, exclusive, journalled"), ("R4", "structure committed before the constructor returns")):
+                     ("R3", "thread-safe connection: fresh, exclusive, journalled"), ("R4", "structure committed before the constructor returns"),
+                     ("R5", "the stored row takes 'vector' from the vector and 'costs' from the costs of the same individual")):
         ctx.rule(rid, doc)
     ctx.axiom("SQLite: a committed transaction survives process death; an uncommitted one is rolled back on next open when a rollback journal exists; one INSERT..ON CONFLICT DO UPDATE statement is atomic")
     ctx.assume("process death only (no OS crash / power loss: synchronous=0 is outside the property's fault model)")
@@ -361,3 +367,5 @@ def run(ctx):
     r2_sync(ctx, ctx.repo, cls)
     r3_conn(ctx, ctx.repo, cls)
     r4_structure(ctx, ctx.repo, cls)
+    from .c10 import r1_fields
+    r1_fields(ctx, ctx.repo, rid="R5", fields=("vector", "costs"), helper_rule=False)
